@@ -565,6 +565,13 @@ def corpus():
     n = [I, _c2(0, 3, 4), {'k': 'relu', 'src': 1}, _c2(2, 4, 3), {'k': 'relu', 'src': 3}, {'k': 'gap2d', 'src': 4},
          {'k': 'flatten', 'src': 5, 'start': 1, 'form': 'fn'}, {'k': 'linear', 'src': 6, 'cin': 3, 'cout': 2, 'bias': True}]
     out.append(('rewrap-features-frozen', {'dim': 2, 'nodes': n, 'rewrap': True}))
+    # a layer whose weights the user froze (requires_grad False) fed by a searchable layer
+    n = [I, _c2(0, 3, 4), {'k': 'relu', 'src': 1}, dict(_c2(2, 4, 3), wfrozen=True), {'k': 'relu', 'src': 3}, {'k': 'gap2d', 'src': 4},
+         {'k': 'flatten', 'src': 5, 'start': 1, 'form': 'fn'}, {'k': 'linear', 'src': 6, 'cin': 3, 'cout': 2, 'bias': True}]
+    out.append(('weight-frozen-layer', {'dim': 2, 'nodes': n}))
+    # a channel cat spelled torch.concat: refused at construction or handled like torch.cat
+    n = [I, _c2(0, 3, 2), _c2(0, 3, 3), {'k': 'cat', 'src': [1, 2], 'dim': 1, 'alias': 'concat'}, _c2(3, 5, 3)]
+    out.append(('cat-alias', {'dim': 2, 'nodes': _head(n, 4, 3)}))
     for _, s in out:
         s['out'] = [len(s['nodes']) - 1]
     return out
@@ -591,6 +598,11 @@ def classes_of(spec):
     fixed_w = lambda j: nodes[j]['k'] == 'in' or (nodes[j]['k'] in LAYER and not is_dw(nodes[j]) and CG.excluded(spec, j)) or (nodes[j]['k'] in LAYER and not is_dw(nodes[j]) and not spec.get('autoconvert', True) and nodes[j].get('pit') is None)
     if spec.get('rewrap'):
         out.append('rewrapped-with-train-features-off')
+    for i, nd in enumerate(nodes):
+        if nd.get('alias'):
+            out.append('cat-spelled-with-an-alias')
+        if nd.get('wfrozen'):
+            out.append('weight-frozen-layer')
     for i, nd in enumerate(nodes):
         if nd.get('pit_untrainable'):
             out.append('placed-masker-not-trainable')
@@ -677,6 +689,11 @@ def judge(spec, ob):
     bad = []
     nodes = spec['nodes']
     if ob['construct'] != 'ok':
+        # a cat spelled torch.concat / torch.concatenate is outside the supported op list: a refusal at construction is an
+        # acceptable outcome (an accepted model must satisfy the property)
+        if any(nd.get('alias') for nd in nodes) and ob['construct'].startswith('EXC:ValueError:Unsupported node'):
+            ob['refused'] = True
+            return []
         return [('construct-raises', ob['construct'])]
     mk = ob['maskers']
     for i, m in mk.items():
@@ -726,7 +743,7 @@ def judge(spec, ob):
     return bad
 
 
-PRIORITY = ['rewrapped-with-train-features-off', 'placed-masker-not-trainable', 'batchnorm-after-flatten', 'placed-pit-layer-listed-in-exclude', 'squeeze-of-features-axis', 'axis-from-the-end:time-cat', 'axis-from-the-end:features-cat', 'axis-from-the-end:flatten', 'axis-from-the-end:squeeze', 'axis-from-the-end:unsqueeze', 'nested-flatten-calculators', 'squeeze-trailing-axis-of-4d', 'cat-repeats-a-tensor', 'depthwise-after-cat', 'add-with-cat-operand', 'cat-of-two-fixed-width-tensors',
+PRIORITY = ['cat-spelled-with-an-alias', 'weight-frozen-layer', 'rewrapped-with-train-features-off', 'placed-masker-not-trainable', 'batchnorm-after-flatten', 'placed-pit-layer-listed-in-exclude', 'squeeze-of-features-axis', 'axis-from-the-end:time-cat', 'axis-from-the-end:features-cat', 'axis-from-the-end:flatten', 'axis-from-the-end:squeeze', 'axis-from-the-end:unsqueeze', 'nested-flatten-calculators', 'squeeze-trailing-axis-of-4d', 'cat-repeats-a-tensor', 'depthwise-after-cat', 'add-with-cat-operand', 'cat-of-two-fixed-width-tensors',
             'cat-of-two-flattened-tensors', 'excluded-layer-next-to-searchable']
 
 
@@ -870,6 +887,8 @@ def run(ctx):
         for p in spec.get('productions', []):
             ctx.dist[p.split(':')[0] if p.startswith('cat:') else p] += 1
         bad = judge_mps(spec, ob) if kind == 'mps' else judge(spec, ob)
+        if ob.get('refused'):
+            ctx.dist['refused-at-construction(cat alias: ValueError Unsupported node)'] += 1
         joins = any(nd['k'] in ('add', 'sub', 'cat') for nd in spec['nodes']) or spec.get('exclude_names') or spec.get('exclude_types')
         for r in ob.get('runs', [{'mode': '-', 'masks': {}}]):
             pruned = any(not all(v) for v in r['masks'].values())
